@@ -1162,9 +1162,12 @@ MANIFEST = {
         "package on every run: the kernel re-runs the 512-pattern simple-point sweep (skeletonize table) and the "
         "pruned 4x5-window sweep (six pass tables) whenever a table bit changes. Also proved: convergence and "
         "idempotence of thin / binary_shrink run to convergence, equal component / hole counts from TopoEq, "
-        "per-label independence of skeletonize_labels over the colouring model, and that binary_shrink run to convergence "
-        "reduces every connected hole-free image to exactly one pixel (end-pixel lemma: kernel sweeps + a crossing-parity "
-        "Jordan argument + induction on the last raster pixel). The models are tied to the code by exact equality of complete outputs (exhaustively on "
+        "per-label independence of skeletonize_labels over the colouring model, that the topology relation restricts to "
+        "every single object (so the Euler number of every object is preserved), and that binary_shrink run to "
+        "convergence reduces every hole-free object of any image to exactly one pixel (end-pixel lemma: kernel sweeps + "
+        "a crossing-parity Jordan argument + induction on the last raster pixel); every clause of the property text has "
+        "its own for-all theorem (subset, component / hole counts, per object, idempotence, loop bound, shrink to a "
+        "point, per-label). The models are tied to the code by exact equality of complete outputs (exhaustively on "
         "all small images, plus random images over every dtype, layout, mask, ordering and iteration parameter, long "
         "images, fresh-interpreter call sequences) with the extracted models cross-checked against vm_compute, and "
         "the verified checker topo_check (soundness proved) is evaluated on every output."),
@@ -1173,8 +1176,9 @@ MANIFEST = {
         "translator tools/gen_tables_c05.py; the Python harness; scipy's EDT / NumPy's lexsort and permutation (only "
         "choose the processing order, which the theorem quantifies over); color_labels. The tie between model and "
         "code is differential, not a proof about Python/C++. One global digital-topology lemma is named as the "
-        "hypothesis of a _partial theorem (Ronse's deletability theorem, for completeness of topo_check only; "
-        "validated exhaustively on small images outside Coq); soundness of the checker is proved."),
+        "hypothesis of a _partial theorem (Ronse's deletability theorem, for completeness of topo_check only; proved "
+        "for the targets binary_shrink produces, validated exhaustively on small images outside Coq in general); "
+        "soundness of the checker is proved."),
     "technique": "Coq proof over executable model (kernel-run finite sweeps on regenerated tables, lifted to all images) "
                  "+ exact differential correspondence (extracted OCaml and vm_compute) + verified checker on outputs",
     "design_ref": "DESIGN.md section 7, C05",
